@@ -7,6 +7,7 @@ Next == UNCHANGED x
 Verdict(o) ==
   IF o.obs.rc1 # 0 \/ o.obs.rc2 # 0 THEN "tool-failed"
   ELSE IF o.obs.parsed # 1 THEN "unparsable-output"
+
   ELSE IF o.cfg.kind = "bw" THEN
        CASE o.cfg.restrict = "none"  -> IF RoundTripW(o.items, o.obs.back) THEN "ok" ELSE "roundtrip"
          [] o.cfg.restrict = "chrom" -> IF RestrictedChromW(o.items, o.rc, o.obs.back3) THEN "ok" ELSE "restricted-chrom"
@@ -18,6 +19,12 @@ Verdict(o) ==
          [] o.cfg.restrict = "range" -> IF RestrictedB(o.items, o.rc, o.rs, o.re, o.obs.back3) THEN "ok" ELSE "restricted-range"
          [] o.cfg.restrict = "start" -> IF RestrictedB(o.items, o.rc, o.rs, o.size, o.obs.back3) THEN "ok" ELSE "restricted-start-only"
          [] o.cfg.restrict = "end"   -> IF RestrictedB(o.items, o.rc, 0, o.re, o.obs.back3) THEN "ok" ELSE "restricted-end-only"
-Post == /\ \A i \in 1..Len(Obs) : LET v == Verdict(Obs[i]) IN (v = "ok" \/ PrintT(<<"BAD", i, v>>))
+\* mechanism: the internal paths that ran (hook points `path.*` recorded from the real binaries through BIGTOOLS_VERIF_TRACE) are the
+\* ones Cli!PathClass selects for the configuration; a difference is model drift (the records are judged above), not a violation
+Drift(o) == o.obs.rc1 = 0 /\ o.obs.rc2 = 0 /\
+            (\/ o.obs.seen.source # <<IF SourceOf(o.cfg) = "stdin" THEN "serial" ELSE SourceOf(o.cfg)>>
+             \/ o.obs.seen.passes # PassesOf(o.cfg)
+             \/ o.obs.seen.back # <<BackPathOf(o.cfg)>>)
+Post == /\ \A i \in 1..Len(Obs) : LET v == Verdict(Obs[i]) IN (v = "ok" \/ PrintT(<<"BAD", i, v>>)) /\ (~Drift(Obs[i]) \/ PrintT(<<"DRIFT", i>>))
         /\ PrintT(<<"CHECKED", Len(Obs)>>)
 =============================================================================
